@@ -1,7 +1,7 @@
 """Data for MANIFEST.json (edit here, then run tools_manifest.py)."""
 
 PYVC_PROPS = ["C08", "C16"]
-BOUNDED_PROPS: list[str] = []
+BOUNDED_PROPS: list[str] = ["C09", "C10", "C11", "C12", "C15"]
 
 
 def chk(pid, category, text, note, technique, design_ref):
@@ -48,6 +48,42 @@ CHECKS = [
         "contract-based deductive verification (ast -> VCs -> z3/cvc5) + runtime contracts", "DESIGN.md 4/C16"),
 ]
 
+def bchk(pid, text, note, design_ref):
+    d = chk(pid, "exploration", text, note, "runtime contracts over an abstract view of the store, small-scope enumeration (bounded stand-in for the "
+            "contract-based technique; SQL statements are outside the verifier's reach)", design_ref)
+    d["engine"] = "bounded"
+    return d
+
+
+CHECKS += [
+    bchk("C09", "BOUNDED (never counted as proved). The contract of find_unique_graphs - for each workflow name the selected traces contain exactly one "
+         "member of every call-tree shape class, never two of one class, same answer for every batch size and ingestion order - is evaluated on the real "
+         "SQLDataHolder over all pairs of small labelled trees plus random deeper ones (DESIGN 4/C09). The recursive hash function's deductive contract "
+         "(spec function H, lemmas L1/L2) is not part of this check yet.",
+         "Bounded exploration on real sqlite; oracle = canonical shapes from the abstract view. One known finding (hash input without separator, D6) is "
+         "listed in KNOWN_FINDINGS.txt and printed as KNOWN-FINDING.", "DESIGN.md 4/C09"),
+    bchk("C10", "BOUNDED, exhaustive in its stated bound (never counted as proved). Whole-view postcondition of ingestion - nodes == first occurrence per "
+         "span id, association rows == the parent links of exactly those spans - over every stream of length <= 4 over a 6-span pool with a duplicated "
+         "id x 4 batch sizes, and over every two-run split (duplicates across runs on a file-backed store).",
+         "Bounded exploration on real sqlite. The de-duplication logic's deductive contract under a ghost store (DESIGN 4/C10 stretch) is not part of this "
+         "check yet.", "DESIGN.md 4/C10"),
+    bchk("C11", "BOUNDED (never counted as proved). Whole-view postconditions of remove_inconsistent_jobs, remove_jobs_outside_of_time_window and "
+         "update_job_names_by_root_span (exactly the broken / outside traces removed, every other row unchanged, root name everywhere, well-formedness "
+         "preserved, ValueError iff the buffered window is empty) and the differential clause on PV sequences, over all pairs (sampled triples) of 17 "
+         "trace variants x time buffers x orders.",
+         "Bounded exploration on real sqlite. get_time_window's arithmetic is additionally meant to be proved (DESIGN 4/C11); not part of this check yet.",
+         "DESIGN.md 4/C11"),
+    bchk("C12", "BOUNDED (never counted as proved). Contract of stream_data over the abstract view: each workflow name once, under it each stored trace "
+         "once (restricted by the optional filter), each trace's spans == its nodes rows with child links == its association rows; traces longer than / "
+         "equal to / shorter than the batch size and off batch boundaries, interleaved ingestion order.",
+         "Bounded exploration on real sqlite; the nested lazy generators are consumed in the order the real consumers use.", "DESIGN.md 4/C12"),
+    bchk("C15", "BOUNDED (never counted as proved). Every history of <= 3 runs (ingest / no ingest x unique graphs on / off) over a file-backed store: each "
+         "run terminates, keeps the store well-formed (association rows match stored spans) and reproduces the PV sequences and selected shapes of the "
+         "first run with the same flags.",
+         "Bounded exploration; separate runs are emulated in one process with a fresh SQLDataHolder and engine per run on the same database file.",
+         "DESIGN.md 4/C15"),
+]
+
 NOT_APPLICABLE = [
     {"property_id": "C01", "reason": "whole-pipeline language inclusion over pm4py's miner, SCC loop extraction on mutable networkx graphs and a heuristic walk: no function-level contract can carry it (DESIGN 5)"},
     {"property_id": "C02", "reason": "behavioural equivalence of two job languages through the same heuristic pipeline, both directions (DESIGN 5)"},
@@ -57,12 +93,7 @@ NOT_APPLICABLE = [
     {"property_id": "C13", "reason": "needs a formal semantics of jq programs; contracts on string concatenation cannot express it (DESIGN 5)"},
     {"property_id": "C04", "reason": "check under construction in this round (not yet registered)"},
     {"property_id": "C06", "reason": "check under construction in this round (not yet registered)"},
-    {"property_id": "C09", "reason": "check under construction in this round (not yet registered)"},
-    {"property_id": "C10", "reason": "check under construction in this round (not yet registered)"},
-    {"property_id": "C11", "reason": "check under construction in this round (not yet registered)"},
-    {"property_id": "C12", "reason": "check under construction in this round (not yet registered)"},
     {"property_id": "C14", "reason": "check under construction in this round (not yet registered)"},
-    {"property_id": "C15", "reason": "check under construction in this round (not yet registered)"},
 ]
 
 NOTES = ("Technique: contract-based deductive verification of the real code (sidecar contracts, VCs generated from /repo's current source on "
